@@ -35,6 +35,12 @@ func run(c *hk.Ctx) {
 	runEndToEnd(c)
 	timing["end_to_end_s"] = time.Since(t0).Seconds()
 	t0 = time.Now()
+	runSameSessionPhase(c)
+	timing["same_session_s"] = time.Since(t0).Seconds()
+	t0 = time.Now()
+	runConcurrentPhase(c)
+	timing["concurrent_s"] = time.Since(t0).Seconds()
+	t0 = time.Now()
 	runClientSide(c)
 	timing["client_s"] = time.Since(t0).Seconds()
 	c.SetExtra("timing", timing)
